@@ -28,7 +28,7 @@ DLS = ("n", "D1", "D2", "D3")
 
 
 def bounds(tier):
-    return dict(tier=tier, families=["nested", "inherit"], modes=list(c14.MODES), history_depth=3 if tier == "quick" else 4,
+    return dict(tier=tier, families=["nested", "inherit", "late (subclass defined by an operation of the history)"], modes=list(c14.MODES), history_depth=3 if tier == "quick" else 4,
                 dialects=list(DLS), formats=list(formats.FORMATS), option_subsets="all of size <= 2 (thorough: <= 3)")
 
 
@@ -37,6 +37,8 @@ def units(tier):
     for fam in ("nested", "inherit"):
         for mode in c14.MODES:
             out.append(("hist", fam, mode, 3 if tier == "quick" else 4))
+    for mode in ("eager", "lazy"):
+        out.append(("hist", "late", mode, 4 if tier == "quick" else 5))     # the subclass is defined by an op of the history
     maxr = 2 if tier == "quick" else 3
     names = list(OPTIONS)
     for fmt in formats.FORMATS:
@@ -52,13 +54,25 @@ class Model(c14.Model):
     def __init__(self, fam, mode):
         super().__init__(fam, mode, True)
         self.alphabet = family.ops_for(fam, True, DLS)
+        if fam == "late":
+            self.alphabet = [op for op in self.alphabet if op[2] == "C0"] + [("define", "n", "C")] + \
+                            [op for op in self.alphabet if op[2] == "C"]
+
+    def initial(self):
+        return family.Family(self.fam, self.mode, self.support, defer=1 if self.fam == "late" else 0)
+
+    def enabled(self, h):
+        if self.fam != "late":
+            return self.alphabet
+        defined = any(op[0] == "define" for op in h)
+        return [op for op in self.alphabet if (op[0] == "define" and not defined) or (op[0] != "define" and (op[2] != "C" or defined))]
 
     def _twin(self, dl):
         return family.Family(self.fam, "eager", True, config_dialect=None if dl == "n" else dl)
 
     def input_for(self, op):
         kind, dl, role = op
-        if kind.startswith("to_"):
+        if kind.startswith("to_") or kind == "define":
             return None
         if op not in self._inp:
             twin = self._twin(dl)
@@ -69,6 +83,8 @@ class Model(c14.Model):
         return self._inp[op]
 
     def expected(self, h, op):
+        if op[0] == "define":
+            return ("ok", "defined")
         if op not in self._exp:
             kind, dl, role = op
             twin = self._twin(dl)
